@@ -3,16 +3,20 @@ import re
 from tools import common as C, wire, oracle as O
 from tools.gen import lines as L
 
-LEAN_MODULES = ["SCP.C08"]
-THEOREMS = ["SCP.C08." + t for t in "strReplace_single read_write read_write_no_thousands read_same_number calc_ignores_separators".split()]
+LEAN_MODULES = ["SCP.C08", "SCP.C08Code"]
+THEOREMS = ["SCP.C08." + t for t in "strReplace_single read_write read_write_no_thousands read_same_number calc_ignores_separators".split()] + \
+    ["SCP.C08Code." + t for t in "readLiteral_comma codeLex_comma executeCode_comma executeCode_sep calculateUnitWith_congr calculateUnit_sep".split()]
 RULE = ("every evaluable line of the shared generators (arithmetic, money, percent phrases, dates, durations, times, units incl. "
         "fractional conversions within and across families, based numbers, variables over 2-3 lines) written in the default "
         "convention and rewritten into each of the conventions (',' '.'), ('.' ','), ('.' ''), (',' ''), with thousands "
         "separators inserted into literals that have a fraction; each configuration is reached from the previous case's one by set_decimal_seperator / set_thousand_separator in either order; metamorphic oracle: identical values (bit-exact) under both "
         "configurations; non-trivial = the line contains a literal with a fraction or a unit/currency conversion; distinct = "
         "distinct (line, convention)")
-ASSUMPTIONS = ["unit conversion renders intermediate values in the configured convention and reads them back (executeCode); its "
-               "separator independence is decided by this metamorphic run over all unit pairs, not by a theorem"]
+ASSUMPTIONS = ["unit conversion renders intermediate values in the configured convention and reads them back (executeCode): "
+               "SCP.C08Code proves that the four conventions compute the same step / the same walk over a family, for every code and amount "
+               "whose substituted text contains no ',' and has every '.' inside a number (codeTextOK); that hypothesis is evaluated by the "
+               "model on every configured conversion code x the amounts of this run (it concerns f64::to_string, which is not modelled "
+               "symbolically); conventions other than the four of the property (exotic separators) are decided by the metamorphic run"]
 TRUSTED = ["number / money / percent lexer glue (exercised)"]
 
 CONV = [(",", "."), (".", ","), (".", ""), (",", "")]
@@ -115,9 +119,35 @@ def run(ctx, model_ok):
         elif len(ctx.samples) < 8 and nontrivial and rng.random() < 0.01:
             ctx.sample({"default": base[bi], "other": t2, "dec": dec, "thou": thou, "value": va})
     if model_ok:
+        vals = [0.0, 1.0, -1.0, 2.5, 0.001, 1e-7, 1234.5678, 1e21, 1e300, 5e-324, float("inf"), float("-inf"), float("nan"), -0.0, 123456789012345680.0, 0.1 + 0.2]
+        vals += [rng.uniform(-1e6, 1e6) for _ in range(40)] + [rng.uniform(0, 1) * 10 ** rng.randint(-30, 30) for _ in range(40)]
+        code_hypothesis(ctx, vals)
         co = wire.Corr(ctx, compare=("kind", "value"))
         co.run([{"lang": "en", "text": t2, "cfg": [{"op": "cfg", "dec": dec, "thou": thou}]} for (bi, dec, thou, t2) in idx[:ctx.n(600, 6000)]])
         ctx.dist.update({"corr:" + k: v for k, v in co.stats.items()})
+
+
+def code_hypothesis(ctx, values):
+    """hypothesis of SCP.C08Code.executeCode_comma on every configured conversion code x sample amounts"""
+    import struct
+    cfg = C.json.load(open(C.REPO + "/src/json/config.json", encoding="utf-8"))
+    codes = set()
+    for fam in cfg["types"]:
+        for it in fam["items"]:
+            for k in ("upgrade_code", "downgrade_code"):
+                if it.get(k) is not None:
+                    codes.add(it[k])
+    for b in cfg["type_conversion"]:
+        codes |= {b["to_source_calculation"], b["to_target_calculation"]}
+    req, idx = [], []
+    for code in sorted(codes):
+        for v in values:
+            req.append(f"codehyp\t{wire.hx(code)}\t{struct.pack('>d', v).hex()}")
+            idx.append((code, v))
+    for (code, v), a in zip(idx, C.run_model(req)):
+        ctx.count("code-hypothesis:checked")
+        if a != "1":
+            ctx.disagree({"observable": "hypothesis codeTextOK of SCP.C08Code.executeCode_comma", "code": code, "value": v, "model": a})
 
 
 def replay(ctx, data, model_ok):
